@@ -114,3 +114,15 @@ V('C16', 'revert-fix-steal-only-when-entering-starving', PF,
   '            if self._new_blocks_waitlist:\n',
   '            if not was_starving and self._new_blocks_waitlist:\n',
   'C16.R10', 'starving-steal-on-every-tick')
+# round 5: repair 7d18c99 (a block with a waiter is neither dropped nor suppressed)
+V('C16', 'revert-fix-drop-block-with-waiters', F, P + 'Pool._tick',
+  'if not block.count_conns() and not nwaiters:', 'if not block.count_conns():',
+  'C16.R11', '_tick:never-drops-a-block-with-waiters')
+V('C16', 'revert-fix-suppress-block-with-waiters', F,
+  P + 'Pool.prune_inactive_connections',
+  'if block.count_waiters():', 'if False:',
+  'C16.R11', 'prune_inactive_connections:never-suppresses')
+# negative control: the same guard spelt through the waiter count only
+V('C16', 'nc-drop-guard-by-count-waiters', F, P + 'Pool._tick',
+  'if not block.count_conns() and not nwaiters:',
+  'if not block.count_conns() and not block.count_waiters():', None)
